@@ -29,7 +29,18 @@ def run(ids):
         prop = meta["property"]
         st = subprocess.run(["git", "-C", "/repo", "status", "--porcelain"], capture_output=True, text=True).stdout
         assert not st.strip(), "/repo not clean"
-        subprocess.run(["git", "-C", "/repo", "apply", os.path.join(d, "patch.diff")], check=True)
+        pf = os.path.join(d, "patch.diff")
+        ok = False
+        for extra in ([], ["-C1", "--recount"], ["-C0", "--recount", "--unidiff-zero"]):
+            if subprocess.run(["git", "-C", "/repo", "apply"] + extra + [pf], capture_output=True).returncode == 0:
+                ok = True
+                break
+        if not ok:
+            meta["last_run"] = {"error": "patch no longer applies to the repaired tree"}
+            meta["detected"] = None
+            json.dump(meta, open(os.path.join(d, "meta.json"), "w"), indent=1)
+            print(name, "PATCH-DOES-NOT-APPLY")
+            continue
         t0 = time.time()
         try:
             r = subprocess.run(["./check", prop], cwd=HERE, capture_output=True, text=True, timeout=3600)
